@@ -187,6 +187,20 @@ Proof.
   - unfold fresh_val, entry. destruct (newest_at_or_before (st_store st) p t); reflexivity.
 Qed.
 
+(* only the entries of the queried port matter *)
+Theorem by_timestamp_correct_port : forall cfg st p k tss,
+  (forall t v, cache_get (st_cache st) p t = Some v -> v = fresh_val (st_store st) p k t) ->
+  snd (hist_get_samples_by_timestamp EmitPerRequest cfg st p k tss) = by_timestamp_spec (st_store st) p k tss.
+Proof.
+  intros cfg st p k tss OK. rewrite by_timestamp_unfold. cbn [snd]. unfold by_timestamp_spec.
+  destruct (lookup_pass_spec (st_cache st) p tss) as [L1 L2].
+  apply map_ext_in. intros t Ht. rewrite fold_results, L2, L1.
+  apply mem_In in Ht. rewrite Ht. cbn [andb].
+  destruct (cache_get (st_cache st) p t) as [v|] eqn:C.
+  - rewrite (OK t v C). unfold fresh_val, entry. destruct (newest_at_or_before (st_store st) p t); reflexivity.
+  - unfold fresh_val, entry. destruct (newest_at_or_before (st_store st) p t); reflexivity.
+Qed.
+
 Lemma by_timestamp_keeps_invariant : forall cfg st p k tss,
   cache_ok cfg st -> port_kind cfg p = Some k ->
   cache_ok cfg (fst (hist_get_samples_by_timestamp EmitPerRequest cfg st p k tss)).
